@@ -264,6 +264,35 @@ def classify_loop(ctx, b, cfg, E, h, blocks):
                             arm0 = tt["targets"][tt["vals"].index(0)]
                             if cfg.dominates(arm0, x):
                                 oneshot.add(x)
+        # ... and a one-shot state (`if let State::AtRoot = self.state { self.state = State::Walking; .. }`):
+        # the path is taken in a state that it leaves for good - no assignment in the loop sets another variant
+        for x in blocks:
+            for s in b.blocks[x]["stmts"]:
+                if s["k"] != "assign" or not s["lhs"]["p"]:
+                    continue
+                ev = E.rvalue(s["rv"])
+                if ev[0] == "agg" and not ev[2] and str(ev[1]).startswith("blockwatch::") and "::" in str(ev[1]):
+                    apath, avar = str(ev[1]).rsplit("::", 1)
+                    ad = ctx.facts.adts.get(apath) or {}
+                    names = [v.get("name") for v in ad.get("variants", [])]
+                    if ad.get("kind") != "enum" or avar not in names:
+                        continue
+                    vi = names.index(avar)
+                    flag_txt = render(E.place(s["lhs"]), 200)
+                    other = any(s2["k"] == "assign" and s2["lhs"]["p"] and s2 is not s and render(E.place(s2["lhs"]), 200).startswith(flag_txt)
+                                and E.rvalue(s2["rv"]) != ev
+                                for y in blocks for s2 in b.blocks[y]["stmts"])
+                    if other:
+                        continue
+                    for y in blocks:
+                        tt = b.blocks[y]["term"]
+                        if not (tt and tt["k"] == "switch"):
+                            continue
+                        e = E.operand(tt["op"])
+                        if e[0] == "discr" and render(e[1], 200) == flag_txt:
+                            for val, tg in zip(tt["vals"], tt["targets"]):
+                                if val != vi and cfg.dominates(tg, x) and tg != y:
+                                    oneshot.add(x)
         moves = moves | oneshot
         outside = set(range(cfg.n)) - set(blocks)
         r = set()
